@@ -160,6 +160,8 @@ impl InlineParser {
     //
     pub fn parse(&self, src: String, srcmap: Vec<(usize, usize)>, node: Node, md: &MarkdownIt, env: &mut ErasedSet) -> Node {
         let mut state = InlineState::new(src, srcmap, md, env, node);
+        #[cfg(mdit_verif)]
+        crate::verif_hooks::clear_claims();
         self.tokenize(&mut state);
         state.node
     }
